@@ -200,16 +200,17 @@ def module(c, key, max_items):
         lines.append("fn show(e: &E) -> String { match e { " + " ".join(pats) + " } }")
         ls = [variant_val(v, lambda i: 11 + i, f"E::V{i}") for i, v in enumerate(vs)]
         rs = [variant_val(v, lambda i: 21 + i, f"E::V{i}") for i, v in enumerate(vs)]
-        body = ["let mut rows: Vec<String> = vec![];"]
+        body = ["let mut rows: Vec<String> = vec![];", "#[allow(unused_mut)] let mut texts: Vec<String> = vec![];"]
         has_unit = any(v["k"] == "unit" for v in vs)
         if d in ("Not", "Neg"):
             for i in range(len(vs)):
                 op = "!" if d == "Not" else "-"
                 if has_unit:
                     body.append(f"rows.push(match {op}({ls[i]}) {{ Ok(v) => show(&v), Err(_) => String::from(\"[\\\"unit\\\"]\") }});")
+                    body.append(f"if let Err(e) = {op}({ls[i]}) {{ texts.push(format!(\"{{:?}}\", format!(\"unit:{{}}\", e))); }}")
                 else:
                     body.append(f"rows.push(show(&({op}({ls[i]}))));")
-            body.append(f"report({json.dumps(key)}, format!(\"{{{{\\\"enum1\\\": [{{}}]}}}}\", rows.join(\",\")));")
+            body.append(f"report({json.dumps(key)}, format!(\"{{{{\\\"enum1\\\": [{{}}], \\\"texts\\\": [{{}}]}}}}\", rows.join(\",\"), texts.join(\",\")));")
         else:
             for i in range(len(vs)):
                 cells = []
@@ -218,7 +219,10 @@ def module(c, key, max_items):
                                  f"Err(derive_more::BinaryError::Mismatch(_)) => String::from(\"[\\\"mismatch\\\"]\"), "
                                  f"Err(derive_more::BinaryError::Unit(_)) => String::from(\"[\\\"unit\\\"]\") }}")
                 body.append("rows.push(format!(\"[{}]\", vec![" + ", ".join(cells) + "].join(\",\")));")
-            body.append(f"report({json.dumps(key)}, format!(\"{{{{\\\"enum2\\\": [{{}}]}}}}\", rows.join(\",\")));")
+                for j in range(len(vs)):
+                    body.append(f"if let Err(e) = ({ls[i]}) {SYM[d]} ({rs[j]}) {{ texts.push(format!(\"{{:?}}\", format!(\"{{}}:{{}}\", "
+                                f"match e {{ derive_more::BinaryError::Mismatch(_) => \"mismatch\", derive_more::BinaryError::Unit(_) => \"unit\" }}, e))); }}")
+            body.append(f"report({json.dumps(key)}, format!(\"{{{{\\\"enum2\\\": [{{}}], \\\"texts\\\": [{{}}]}}}}\", rows.join(\",\"), texts.join(\",\")));")
     lines.append("pub fn run() {\n    " + "\n    ".join(body) + "\n}")
     return "\n".join(lines)
 
@@ -332,6 +336,15 @@ def run(chk, tier, seed, replay):
             else:
                 want = [[norm_cell(c) for c in row] for row in doc]
                 got = res["enum2"]
+            # extension (Ops.tla DocErrText): what the errors print
+            ext = chk.notes.setdefault("extension_error_texts", {"checked": 0, "mismatches": []})
+            for t in res.get("texts", []):
+                kind_, _, txt = t.partition(":")
+                ext["checked"] += 1
+                if txt != rec["errText"][kind_]:
+                    if len(ext["mismatches"]) < 20:
+                        ext["mismatches"].append({"case": k, "expected": rec["errText"][kind_], "observed": txt})
+                    log(f"EXTENSION-MISMATCH (not a C10 verdict) error text: {k}: expected {rec['errText'][kind_]!r}, observed {txt!r}")
             if got != want:
                 chk.deviation(k, "operator result differs from the field-wise, order-preserving contract",
                               case={"module": mod, "doc_terms": doc}, expected=want, observed=got, tags={"kind": "result"})
